@@ -802,19 +802,40 @@ example (v w : List Nat → ℚ) :=
       subst ha
       exact uniformAxis_good 0 1 2 .linear (by norm_num) (by norm_num)) rfl (-3) v w
 
+/-- `linear_deform(template, displacement, interp)` as executed (`linearDeform`: displaced points
+`space.points() + displacement`, transposition, dispatch of `per_axis_interpolator`, `(d, N)`
+point-array convention) is the single-point interpolant of the template at every displaced grid
+point `x + v(x)`, in C order — every dimension `d ≥ 1`, scheme mix, non-uniform grid; the
+displacement has one entry per axis at every point. -/
+theorem C15.deform_samples_interpolant (axes : List (Axis K)) (hg : ∀ a ∈ axes, a.Good)
+    (hne : axes ≠ []) (v : List Nat → V) (disp : List (List K))
+    (hlen : ∀ p ∈ deformedPoints axes disp, p.length = axes.length) :
+    linearDeform axes v disp = (deformedPoints axes disp).map (perAxisInterp axes v) := by
+  unfold linearDeform
+  rw [perAxisInterpolatorArray_eq axes hg v _ (transposePts_length _ _),
+    columns_transposePts axes.length (List.length_pos_iff.mpr hne) _ hlen]
+
+/-- Non-vacuity: a 2-d grid, the displacement matrix has one row per axis and one entry per grid
+point; every displaced point has two coordinates. -/
+example : let ax : List (Axis ℚ) := [uniformAxis 0 1 2 .linear, uniformAxis 0 1 2 .nearest]
+    ∀ p ∈ deformedPoints ax [[1 / 8, 0, 0, -1 / 8], [0, 1 / 4, 0, 0]], p.length = ax.length := by
+  decide +kernel
+
 /-- `linear_deform` with a zero displacement field returns the template (flat, C order), for
 every scheme mix, dimension and non-uniform grid: the displaced points `space.points() + 0` are
 the grid points and every interpolator reproduces node values. -/
-theorem C15.deform_zero_identity (axes : List (Axis K)) (hg : ∀ a ∈ axes, a.Good)
+theorem C15.deform_zero_identity (axes : List (Axis K)) (hg : ∀ a ∈ axes, a.Good) (hne : axes ≠ [])
     (v : List Nat → V) (disp : List (List K))
     (hd : columns disp = (gridPoints axes).map (fun p => p.map (fun _ => (0 : K)))) :
     linearDeform axes v disp = (allIdx axes).map v := by
-  unfold linearDeform deformedPoints
-  rw [hd, zipWith_add_zero, gridPoints_eq, List.map_map, allIdx]
+  have hpts : deformedPoints axes disp = gridPoints axes := by
+    unfold deformedPoints
+    rw [hd, zipWith_add_zero]
+  rw [C15.deform_samples_interpolant axes hg hne v disp (by rw [hpts]; exact gridPoints_length axes),
+    hpts, gridPoints_eq, List.map_map, allIdx]
   apply List.map_congr_left
   intro idx hidx
   have hv : ValidIdx axes idx := mem_allIdx_lt axes idx hidx
-  simp only [Function.comp, perAxisInterpolator_eq axes hg]
   exact (C15.interp_node_exact axes hg idx hv).1 v
 
 /-- Non-vacuity: the zero field on `uniform_discr(0, 1, 3)` (one component, three entries). -/
@@ -826,15 +847,15 @@ example : columns [[(0 : ℚ), 0, 0]] =
 displaced points `x + v(x)`, whenever these stay in the hull of the grid nodes (any dimension,
 non-uniform grids). -/
 theorem C15.deform_affine_exact (axes : List (Axis K))
-    (hg : ∀ a ∈ axes, a.Good ∧ a.scheme = .linear) (disp : List (List K))
+    (hg : ∀ a ∈ axes, a.Good ∧ a.scheme = .linear) (hne : axes ≠ []) (disp : List (List K))
     (hin : ∀ p ∈ deformedPoints axes disp, InHull axes p)
     (a0 : V) (bs : List V) (hb : bs.length = axes.length) (v : List Nat → V)
     (hv : ∀ idx, ValidIdx axes idx → v idx = affineAt a0 (gridPoint axes idx) bs) :
     linearDeform axes v disp = (deformedPoints axes disp).map (fun p => affineAt a0 p bs) := by
-  unfold linearDeform
+  rw [C15.deform_samples_interpolant axes (fun a ha => (hg a ha).1) hne v disp
+    (fun p hp => (hin p hp).length_eq.symm)]
   apply List.map_congr_left
   intro p hp
-  rw [perAxisInterpolator_eq axes (fun a ha => (hg a ha).1)]
   exact C15.linear_affine_exact axes hg a0 bs hb v hv p (hin p hp)
 
 /-- Non-vacuity: on `uniform_discr(0, 1, 4)` the displacement (1/8, 0, -1/8, -1/4) moves the nodes
